@@ -8,7 +8,7 @@ import z3
 from .loader import ClassInfo
 from .values import StarOpaque as StarOpaqueT, SuperRef as SuperRefT
 from .values import (Builtin, BoundMethod, ClassRef, ExtRef, FuncVal, ModuleRef, NativeFn, Obj, PyRaise, SBool,
-                     SInt, SReal, Stacked, TupleT, U, UVal, Unsupported)
+                     SInt, SReal, Stacked, SymMap, TupleT, U, UVal, Unsupported)
 
 _MISSING = object()
 
@@ -141,7 +141,7 @@ class CallMixin:
                                            or not init.owner.is_dataclass and init.owner is not ci and not ci.is_dataclass)
         # a dataclass subclass regenerates __init__ unless init=False
         if ci.is_dataclass and ci.dc_kwargs.get("init") is not False:
-            use_custom = False
+            use_custom = "__init__" in ci.methods      # dataclass() keeps an __init__ defined in the class body
         if any(isinstance(a, StarOpaqueT) for a in args):
             raise Unsupported("opaque star-args to constructor")
         if "Exception" in self.ext_base_names(ci) and init is None:
@@ -263,6 +263,19 @@ class CallMixin:
             if name in ("T",):
                 raise Unsupported("transpose of Stacked")
             return Stacked(o.n, lambda i: self.getattr(o.at(i), name), tag="." + name)
+        if isinstance(o, SymMap):
+            if name == "get":
+                def get(interp, k, dflt=None, o=o):
+                    kt = interp.to_u(interp.hashable(k))
+                    if interp.ctx.branch(z3.Select(o.has, kt), tag="dict.get-has-key"):
+                        return interp.symmap_wrap(o, z3.Select(o.val, kt))
+                    return dflt
+                return NativeFn("symdict.get", get)
+            if name in ("keys", "values", "items"):
+                return NativeFn("symdict." + name, lambda interp, o=o, name=name: SymMapView(o, name))
+            if name == "copy":
+                return NativeFn("symdict.copy", lambda interp, o=o: o.copy())
+            raise Unsupported(f"symbolic dict method {name}")
         if isinstance(o, dict):
             if name in ("keys", "values", "items", "get", "update", "copy", "pop", "setdefault"):
                 return NativeFn("dict." + name, _dict_method(o, name))
@@ -905,6 +918,13 @@ class CallMixin:
 def Env_(parent, owner=None):
     from .interp import Env
     return Env({}, parent, owner=owner)
+
+
+class SymMapView:
+    """dict.keys() / .values() / .items() of a symbolic dict; only consumed by theory-level models"""
+
+    def __init__(self, m, kind):
+        self.m, self.kind = m, kind
 
 
 class AtRef:
